@@ -1,5 +1,6 @@
 import I2N.Lemmas.NetReattach
 import I2N.Lemmas.NetGen
+import I2N.Extracted.GenNetwork
 /-!
 # C18 — The vm network model stays consistent and its address arithmetic is exact
 
@@ -534,5 +535,382 @@ example : RangeIsDict (fromInterface { ip := 167837954, netmask := 4294967040, h
   fromInterface_rangeIsDict _
 
 end TranslatorTie
+
+section TranslatorTieNetwork
+open I2N.Extracted.GenNet I2N.Extracted.GenNetwork
+
+/-- the key just stored is present -/
+theorem hasKey_aset_self {α : Type} (k : Nat) (v : α) (l : List (Nat × α)) : hasKey k (aset k v l) = true := by
+  rw [← alookup_isSome_iff_hasKey, alookup_aset_self]; rfl
+
+/-- two stores into the same interface object are one store -/
+theorem setIface_setIface (s : Net) (i : Nat) (f g : Iface → Iface) :
+    (s.setIface i f).setIface i g = s.setIface i (fun x => g (f x)) := by
+  unfold Net.setIface
+  congr 1
+  funext j
+  by_cases h : j = i <;> simp [h]
+
+/-- the proxy selection of `reattach_interface` (`proxy_nic != "" and proxy_nic != server_nic`, then the lookup of the
+    proxy interface, which would be a `KeyError` for the empty name) is the model's `if p = some r then none else p`;
+    it never raises and leaves the state alone -/
+theorem reattachProxy_matches_source (r : Nat) (p : Option Nat) (s : Net) :
+    genReattachProxy r p s = .ok ((if p = some r then none else p), s) := by
+  unfold genReattachProxy genReattachProxySelected lookupNic
+  cases p with
+  | none => rfl
+  | some q =>
+    by_cases h : q = r
+    · subst h
+      simp [Id.run, pure, StateT.pure, Except.pure]
+    · have h1 : ((some q : Option Nat) == some r) = false := by simp [h]
+      have h0 : ((some q : Option Nat) == none) = false := by simp
+      simp [Id.run, pure, StateT.pure, Except.pure, bind, StateT.bind, Except.bind, h, h0, h1]
+
+/-- the attach part of `reattach_interface` — detach from the OLD netconfig (`KeyError` when the address is not
+    registered there), allocate in the new one, store the address, `add_interface` — is the first half of the model's
+    `reattach`, given the two netconfig references -/
+theorem reattachAttach_eq (s : Net) (c tn on : Nat) (hc : (s.iface c).nc = some on) :
+    genReattachAttach c tn s =
+      (if !hasKey (s.iface c).ip (s.nc on).ifs then .error .keyError else
+        let s1 := s.setNc on (fun k => { k with ifs := adel (s.iface c).ip k.ifs })
+        match allocate (s1.nc tn) with
+        | .error e => .error e
+        | .ok (a, k') =>
+          (addInterface ((s1.setNc tn (fun _ => k')).setIface c (fun f => { f with ip := a })) tn c).map
+            (fun s' => ((), s'))) := by
+  unfold genReattachAttach
+  simp only [ncOf, ipOf, delIfs, allocM, setIp, bind, StateT.bind, pure, StateT.pure, Except.bind, Except.pure, hc]
+  by_cases hk : hasKey (s.iface c).ip (s.nc on).ifs = true
+  · simp only [hk, Bool.not_true, Bool.false_eq_true, if_false]
+    cases allocate ((s.setNc on fun k => { k with ifs := adel (s.iface c).ip k.ifs }).nc tn) with
+    | error e => rfl
+    | ok q =>
+      obtain ⟨a, k'⟩ := q
+      simp only [addInterface_matches_source]
+      cases addInterface _ tn c <;> rfl
+  · have hk' : hasKey (s.iface c).ip (s.nc on).ifs = false := by simpa using hk
+    simp only [hk', Bool.not_false, if_true]
+
+/-- `VMNetwork.reattach_interface` (avocado_i2n/vmnet/network.py): the generated definition — pinned head (the nic
+    roles resolved to the interface objects `c`, `r`), translated proxy selection, translated attach part (detach from
+    the old netconfig, allocate in the new one, `add_interface`), translated proxy part, pinned tail — is the model's
+    `reattach`, for every network state, every pair of interfaces and every proxy nic (without and with proxy): same
+    final registry, same exception. -/
+theorem reattach_matches_source (s : Net) (c r : Nat) (p : Option Nat) :
+    genReattach c r p s = (reattach s c r p).map (fun s' => ((), s')) := by
+  unfold genReattach reattach
+  simp only [bind, StateT.bind, Except.bind, reattachProxy_matches_source]
+  generalize (if p = some r then none else p) = p'
+  cases hr : (s.iface r).nc with
+  | none => simp only [ncOf, hr]; rfl
+  | some tn =>
+    simp only [ncOf, hr]
+    cases hc : (s.iface c).nc with
+    | none =>
+      simp only [genReattachAttach, ncOf, hc, bind, StateT.bind, Except.bind]; rfl
+    | some on =>
+      rw [reattachAttach_eq s c tn on hc]
+      by_cases hk : hasKey (s.iface c).ip (s.nc on).ifs = true
+      · simp only [hk, Bool.not_true, Bool.false_eq_true, if_false]
+        cases allocate ((s.setNc on fun k => { k with ifs := adel (s.iface c).ip k.ifs }).nc tn) with
+        | error e => rfl
+        | ok q =>
+          obtain ⟨a, k'⟩ := q
+          simp only
+          cases hadd : addInterface (((s.setNc on fun k => { k with ifs := adel (s.iface c).ip k.ifs }).setNc tn
+              fun _ => k').setIface c fun f => { f with ip := a }) tn c with
+          | error e => rfl
+          | ok s3 =>
+            simp only [Except.map]
+            cases p' with
+            | none => rfl
+            | some pi =>
+              -- what `add_interface` left behind: the address of `c` is `a` and it is registered in `tn`
+              have h3 : (s3.iface c).ip = a ∧ hasKey a (s3.nc tn).ifs = true := by
+                unfold addInterface at hadd
+                simp only at hadd
+                split at hadd
+                · cases hadd
+                · cases hadd
+                  constructor
+                  · simp [Net.setIface, Net.setNc]
+                  · simp only [Net.setIface, Net.setNc, if_true]
+                    exact hasKey_aset_self _ _ _
+              simp only [genReattachProxyPart, ipOf, delIfs, setIp, setNcRef, ncOf, allocM, bind, StateT.bind, pure,
+                StateT.pure, Except.bind, Except.pure, h3.1, h3.2, Bool.not_true, Bool.false_eq_true, if_false]
+              generalize hs5 : ((s3.setNc tn fun k => { k with ifs := adel a k.ifs }).setIface r fun f =>
+                { f with ip := ((s3.setNc tn fun k => { k with ifs := adel a k.ifs }).iface pi).ip }) = s5
+              cases hp : (s5.iface pi).nc with
+              | none => rfl
+              | some pn =>
+                simp only
+                cases allocate (s5.nc pn) with
+                | error e => rfl
+                | ok q2 =>
+                  obtain ⟨a2, k2⟩ := q2
+                  have hpi : (((s5.setNc pn fun _ => k2).setIface c fun f => { f with ip := a2 }).iface pi).nc = some pn := by
+                    simp only [Net.setIface, Net.setNc]
+                    by_cases h : pi = c
+                    · simp only [h, if_true]; rw [← h]; exact hp
+                    · simp only [h, if_false]; exact hp
+                  simp only [hpi, setIface_setIface]
+      · have hk' : hasKey (s.iface c).ip (s.nc on).ifs = false := by simpa using hk
+        simp only [hk', Bool.not_false, if_true]
+        rfl
+
+/-- a concrete run through both translated parts: the selftest call with `proxy_nic="b1"` -/
+example : ∃ s s', reattach s 0 3 (some 2) = .ok s' ∧ genReattach 0 3 (some 2) s = .ok ((), s') := by
+  obtain ⟨s, s', _, _, h, _⟩ := witness_proxy_nic
+  exact ⟨s, s', h, by rw [reattach_matches_source, h]; rfl⟩
+
+/-! ### `VMNetconfig.validate` -/
+
+/-- the range check of `IPv4Address(net_ip) + offset` in natural numbers -/
+theorem ipv4_add (a b : Nat) :
+    ipv4 (Int.ofNat a + Int.ofNat b) = if a + b ≥ ipSpace then .error .valueError else .ok (Int.ofNat (a + b)) := by
+  unfold ipv4
+  simp only [Int.ofNat_eq_natCast]
+  by_cases h : a + b ≥ ipSpace
+  · have : ((a : Int) + (b : Int) < 0 ∨ (a : Int) + (b : Int) ≥ (ipSpace : Int)) := by omega
+    rw [if_pos this, if_pos h]
+  · have : ¬ ((a : Int) + (b : Int) < 0 ∨ (a : Int) + (b : Int) ≥ (ipSpace : Int)) := by omega
+    rw [if_neg this, if_neg h]
+    simp
+
+theorem ipStartIface_eq (c : Netconfig) :
+    ipStartIface c = if c.netIp + minOff c.range ≥ ipSpace then .error .valueError
+      else .ok (c.netIp + minOff c.range, c.bits) := by
+  unfold ipStartIface
+  rw [ipv4_add]
+  by_cases h : c.netIp + minOff c.range ≥ ipSpace
+  · simp only [h, if_true]; rfl
+  · simp only [h, if_false]; simp [bind, Except.bind, pure, Except.pure]; omega
+
+theorem ipEndIface_eq (c : Netconfig) :
+    ipEndIface c = if c.netIp + maxOff c.range ≥ ipSpace then .error .valueError
+      else .ok (c.netIp + maxOff c.range, c.bits) := by
+  unfold ipEndIface
+  rw [ipv4_add]
+  by_cases h : c.netIp + maxOff c.range ≥ ipSpace
+  · simp only [h, if_true]; rfl
+  · simp only [h, if_false]; simp [bind, Except.bind, pure, Except.pure]; omega
+
+/-- the body of the interface loop of `validate`: the two asserts (in this order, the `KeyError` of the dictionary
+    read between them) and the `TestError` -/
+theorem validateIfaces_matches_source (s : Net) (n : Nat) (c : Netconfig) (l : List (Nat × Nat)) :
+    genValidateIfaces s n c l = validateIfs s n c l := by
+  induction l with
+  | nil => rfl
+  | cons x rest ih =>
+    obtain ⟨k, i⟩ := x
+    simp only [genValidateIfaces, validateIfs, genValidateIface, ifsGet, bind, Except.bind, pure,
+      Except.pure, throw, throwThe, MonadExceptOf.throw]
+    by_cases h1 : (s.iface i).nc = some n
+    · cases hl : alookup (s.iface i).ip c.ifs with
+      | none => simp [h1]
+      | some j =>
+        by_cases h2 : j = i
+        · by_cases h3 : inNet c (s.iface i).ip = true
+          · simp [h1, h2, h3, ih, inNetwork]
+          · have h3' : inNet c (s.iface i).ip = false := by simpa using h3
+            simp [h1, h2, h3', inNetwork]
+        · simp [h1, h2]
+    · simp [h1]
+
+/-- the loop over the address dictionary: `TestError` for the first address outside the own network -/
+theorem validateAddrs_eq (c : Netconfig) (l : List IpIface) :
+    genValidateAddrs c l = (match l.all (fun a => inNetwork c a) with | true => .ok () | false => .error .testError) := by
+  induction l with
+  | nil => rfl
+  | cons a rest ih =>
+    rw [List.all_cons]
+    cases hx : inNetwork c a with
+    | false =>
+      simp only [genValidateAddrs, genValidateAddress, hx, bind, Except.bind, throw, throwThe, MonadExceptOf.throw,
+        Bool.false_and]
+      rfl
+    | true =>
+      simp only [genValidateAddrs, genValidateAddress, hx, bind, Except.bind, pure, Except.pure, ih, Bool.true_and]
+      rfl
+
+/-- `VMNetconfig.validate`: the generated definition — the address dictionary (host only when defined and non-empty,
+    `ip_start`, `ip_end` with their `AddressValueError`), the `TestError` loop over it, the loop over the interfaces
+    with its two asserts, the `KeyError` and the `TestError` — is the model's `validate`, for every network state and
+    every netconfig: same exception or none. -/
+theorem validate_matches_source (s : Net) (n : Nat) : genValidate s n = validate s n := by
+  unfold genValidate validate
+  simp only [genValidateAddresses, ipStartIface_eq, ipEndIface_eq, validateIfaces_matches_source, validateAddrs_eq,
+    bind, Except.bind, pure, Except.pure]
+  by_cases hs : (s.nc n).netIp + minOff (s.nc n).range ≥ ipSpace
+  · simp [hs]
+  · by_cases he : (s.nc n).netIp + maxOff (s.nc n).range ≥ ipSpace
+    · simp [hs, he]
+    · cases hh : (s.nc n).host with
+      | none =>
+        cases h1 : inNet (s.nc n) ((s.nc n).netIp + minOff (s.nc n).range) <;>
+          cases h2 : inNet (s.nc n) ((s.nc n).netIp + maxOff (s.nc n).range) <;>
+          simp [hs, he, hh, h1, h2, hostOutside, inNetwork]
+      | some h =>
+        cases h0 : inNet (s.nc n) h <;>
+          cases h1 : inNet (s.nc n) ((s.nc n).netIp + minOff (s.nc n).range) <;>
+          cases h2 : inNet (s.nc n) ((s.nc n).netIp + maxOff (s.nc n).range) <;>
+          simp [hs, he, hh, h0, h1, h2, hostOutside, inNetwork]
+
+/-- `add_interface` with the generated `validate` inside (the atom `validate_` of `genAddInterface` is the hand
+    model's `validate`, which is the generated one) -/
+theorem validate__eq_genValidate (n : Nat) (s : Net) :
+    validate_ n s = match genValidate s n with | .error e => .error e | .ok () => .ok ((), s) := by
+  rw [validate_matches_source]; rfl
+
+/-- a run of the generated `validate` that passes every check, on the selftest network -/
+example : ∃ s, build inpA = .ok s ∧ genValidate s 0 = .ok () := by
+  have hc : holds (build inpA) (fun s => match validate s 0 with | .ok () => true | .error _ => false) = true := by
+    decide +kernel
+  obtain ⟨s, hb, h1⟩ := holds_ok _ _ hc
+  refine ⟨s, hb, ?_⟩
+  rw [validate_matches_source]
+  cases hv : validate s 0 with
+  | error e => rw [hv] at h1; cases h1
+  | ok u => rfl
+
+/-! ### `VMNetwork.integrate_node` -/
+
+/-- the inner `for netconfig in self.netconfigs.values(): if netconfig.can_add_interface(interface): …; break` is the
+    model's `findNc`: the first registered netconfig that accepts the interface, the exception of the first
+    `can_add_interface` that raises, the state untouched -/
+theorem findNc_matches_source (s : Net) (i : Nat) (l : List (Nat × Nat)) :
+    genFindNc i l s = (findNc s i l).map (fun o => (o, s)) := by
+  induction l with
+  | nil => rfl
+  | cons x rest ih =>
+    obtain ⟨k, n⟩ := x
+    simp only [genFindNc, findNc, genIntegrateTest, canAddM, canAdd_matches_source, bind, StateT.bind, Except.bind,
+      pure]
+    cases canAdd (s.nc n) i (s.iface i) with
+    | error e => rfl
+    | ok b => cases b <;> simp [ih, Except.map, pure, StateT.pure, Except.pure]
+
+/-- `new_netconfig()` followed by `from_interface(interface)` is the model's one step creation -/
+theorem newNetconfig_state (s : Net) (i : Nat) :
+    ({ s with nNc := s.nNc + 1, nc := fun m => if m = s.nNc then default else s.nc m } : Net).setNc s.nNc
+        (fun _ => fromInterface (s.iface i)) =
+      { s with nNc := s.nNc + 1, nc := fun m => if m = s.nNc then fromInterface (s.iface i) else s.nc m } := by
+  unfold Net.setNc
+  congr 1
+  funext m
+  by_cases h : m = s.nNc <;> simp [h]
+
+/-- `add_interface` does not change the network address of the netconfig -/
+theorem addInterface_netIp (s s2 : Net) (n i : Nat) (h : addInterface s n i = .ok s2) :
+    (s2.nc n).netIp = (s.nc n).netIp := by
+  unfold addInterface at h
+  simp only at h
+  split at h
+  · cases h
+  · cases h; simp [Net.setIface, Net.setNc]
+
+/-- the body of the second loop of `integrate_node` for one interface — the for/else over the registered netconfigs,
+    `add_interface` to the first that accepts it, otherwise a NEW netconfig made from the interface, `add_interface`,
+    and only then the registration under its network address — is the model's `place` -/
+theorem place_matches_source (s : Net) (i : Nat) : genPlace i s = (place s i).map (fun s' => ((), s')) := by
+  unfold genPlace place
+  simp only [registered, bind, StateT.bind, Except.bind, findNc_matches_source]
+  cases findNc s i s.reg with
+  | error e => rfl
+  | ok o =>
+    cases o with
+    | some n =>
+      simp only [Except.map, genIntegrateFound, addInterface_matches_source, bind, StateT.bind, Except.bind]
+      cases addInterface s n i <;> rfl
+    | none =>
+      simp only [Except.map, genIntegrateNew, newNetconfig, fromInterfaceM, registerNc, addInterface_matches_source,
+        bind, StateT.bind, Except.bind, newNetconfig_state]
+      cases hadd : addInterface ({ s with nNc := s.nNc + 1, nc := fun m => if m = s.nNc then fromInterface (s.iface i) else s.nc m } : Net) s.nNc i with
+      | error e => rfl
+      | ok s2 =>
+        have := addInterface_netIp _ s2 s.nNc i hadd
+        simp only [if_true] at this
+        simp only [this]
+        rfl
+
+theorem placeAll_matches_source (l : List Nat) : ∀ s : Net,
+    genPlaceAll l s = (placeAll s l).map (fun s' => ((), s')) := by
+  induction l with
+  | nil => intro s; rfl
+  | cons i rest ih =>
+    intro s
+    simp only [genPlaceAll, placeAll, bind, StateT.bind, Except.bind, place_matches_source]
+    cases place s i with
+    | error e => rfl
+    | ok s' => simp only [Except.map, ih]
+
+/-- `VMNetwork.integrate_node` (avocado_i2n/vmnet/network.py): the generated definition — pinned guards and first loop
+    (the new interface objects `first … first+count-1`), then for every interface the translated for/else over the
+    registered netconfigs — is the model's `integrateNode`, for every network state and every number of nics: same
+    final registry, same exception. -/
+theorem integrateNode_matches_source (s : Net) (first count : Nat) :
+    genIntegrateNode first count s = (integrateNode s first count).map (fun s' => ((), s')) :=
+  placeAll_matches_source _ s
+
+/-- a concrete run through both parts (a new netconfig, then a second interface added to it) -/
+example : ∃ s', integrateNode (init inpA) 0 2 = .ok s' ∧ genIntegrateNode 0 2 (init inpA) = .ok ((), s') := by
+  have h : isOk (integrateNode (init inpA) 0 2) = true := by decide +kernel
+  cases hi : integrateNode (init inpA) 0 2 with
+  | error e => rw [hi] at h; cases h
+  | ok s' => exact ⟨s', rfl, by rw [integrateNode_matches_source, hi]; rfl⟩
+
+/-! ### `VMNetwork.__init__` -/
+
+theorem placeAll_append (l1 l2 : List Nat) : ∀ s : Net,
+    placeAll s (l1 ++ l2) = (match placeAll s l1 with | .error e => .error e | .ok s' => placeAll s' l2) := by
+  induction l1 with
+  | nil => intro s; rfl
+  | cons i rest ih =>
+    intro s
+    simp only [List.cons_append, placeAll]
+    cases place s i with
+    | error e => rfl
+    | ok s' => exact ih s'
+
+/-- the loop of the constructor over the vms, each with its own `integrate_node`, is one `placeAll` over all interface
+    objects in creation order -/
+theorem genInit_eq (counts : List Nat) : ∀ (first : Nat) (s : Net),
+    genInit first counts s = (placeAll s (List.range' first counts.sum)).map (fun s' => ((), s')) := by
+  induction counts with
+  | nil => intro first s; rfl
+  | cons k rest ih =>
+    intro first s
+    have hr : List.range' first (k :: rest).sum = List.range' first k ++ List.range' (first + k) rest.sum := by
+      rw [List.sum_cons, List.range'_append_1]
+    rw [hr, placeAll_append]
+    simp only [genInit, genInitNode, newNode, bind, StateT.bind, Except.bind, pure, StateT.pure, Except.pure]
+    have := integrateNode_matches_source s first k
+    unfold integrateNode at this
+    rw [this]
+    cases placeAll s (List.range' first k) with
+    | error e => rfl
+    | ok s' => simp only [Except.map]; exact ih (first + k) s'
+
+/-- `VMNetwork.__init__` (avocado_i2n/vmnet/network.py): the generated loop over the vms — for every vm a node object
+    and `integrate_node` (translated), the vm lookup pinned, the registry empty in front of the loop (checked) — run on
+    the model's initial state is the model's `build`, for every list of interfaces and every split of them into vms
+    (`counts` = the number of nics of every vm, in order). -/
+theorem init_matches_source (inp : List Iface) (counts : List Nat) (h : counts.sum = inp.length) :
+    genInit 0 counts (init inp) = (build inp).map (fun s' => ((), s')) := by
+  rw [genInit_eq, h]
+  unfold build
+  rw [List.range_eq_range']
+
+/-- non-vacuity: the selftest network, two vms with two nics each -/
+example : ([2, 2] : List Nat).sum = inpA.length := by decide
+
+example : ∃ s', build inpA = .ok s' ∧ genInit 0 [2, 2] (init inpA) = .ok ((), s') := by
+  have h : isOk (build inpA) = true := by decide +kernel
+  cases hi : build inpA with
+  | error e => rw [hi] at h; cases h
+  | ok s' => exact ⟨s', rfl, by rw [init_matches_source inpA [2, 2] (by decide), hi]; rfl⟩
+
+end TranslatorTieNetwork
 
 end I2N.Props.C18
